@@ -1319,6 +1319,14 @@ fn fuzzy(req: &J) -> J {
     json!({"distance": d, "unlimited": cedar_policy_core::fuzzy_match::fuzzy_search(key, &words)})
 }
 
+/// print a policy given in the JSON (EST) format: the EST printer without going through the AST (a panic is caught by the caller)
+fn est_print(req: &J) -> J {
+    match serde_json::from_value::<cedar_policy_core::est::Policy>(req["policy"].clone()) {
+        Ok(p) => json!({"printed": p.to_string()}),
+        Err(e) => json!({"not_an_est_policy": e.to_string()}),
+    }
+}
+
 fn handle(req: &J) -> J {
     match req["op"].as_str().unwrap_or("") {
         "eval" => eval(req),
@@ -1343,6 +1351,7 @@ fn handle(req: &J) -> J {
         "proto_roundtrip" => proto_roundtrip(req),
         "permission_query" => permission_query(req),
         "fuzzy" => fuzzy(req),
+        "est_print" => est_print(req),
         "ffi_convert" => ffi_convert(req),
         other => json!({"unknown_op": other}),
     }
